@@ -22,6 +22,10 @@ func vhSomeDoc() *etree.Document {
 	root := etree.NewElement("samlp:AuthnRequest")
 	root.CreateAttr("xmlns:samlp", "urn:oasis:names:tc:SAML:2.0:protocol")
 	root.CreateAttr("ID", vIDString("doc.ID"))
+	if vFlag("doc.has-destination") {
+		// a caller-supplied document may be addressed anywhere: the binding endpoints come from the configuration
+		root.CreateAttr("Destination", vString("doc.Destination"))
+	}
 	root.CreateText(vQueryString("doc.text"))
 	doc.SetRoot(root)
 	return doc
